@@ -5,7 +5,16 @@
    The association model is transcribed from Core Vol 3 Part H 2.3.5.1, Table 2.8
    (rows = responder, columns = initiator), NOT from bumble's Session.PAIRING_METHODS.
    Actions take what an observer can see (user answers, key identities, flags) as
-   parameters: Next feeds them from the model's own choices, SmpTrace.tla from a trace.  *)
+   parameters: Next feeds them from the model's own choices, SmpTrace.tla from a trace.
+
+   Histories of pairings: the two devices go through a sequence of LIVES (variable `life`).  A life
+   is one pairing attempt on a connection whose central is "i", followed by reconnections that
+   encrypt from the key stores (Rebond) and by the user deleting the bond on a device (Forget).
+   NewLife starts the next attempt - same or swapped roles, any configuration - and carries ONLY the
+   key stores over: a new pairing therefore runs while one or both devices still hold the keys of
+   an earlier bond (or after one of them has lost them).  Every encryption start of every life
+   (STK / SC LTK during pairing, LTK from the store on reconnection) must use one key: the key the
+   peripheral's long-term-key provider returns is the key in the central's request.               *)
 EXTENDS Naturals, Sequences, FiniteSets, TLC
 
 CONSTANTS IoI, IoR,                 \* IO capabilities explored for initiator / responder
@@ -14,7 +23,10 @@ CONSTANTS IoI, IoR,                 \* IO capabilities explored for initiator / 
           Rounds,                   \* passkey confirm rounds (20 in the protocol)
           RspAny,                   \* responder may answer any subset of the requested masks (TRUE) / the intersection (FALSE)
           Faults,                   \* explore user faults and tampering (TRUE) or cooperative users only (FALSE)
-          Strays                    \* a side that has failed may still emit one late PDU (TRUE); FALSE for the liveness run
+          Strays,                   \* a side that has failed may still emit one late PDU (TRUE); FALSE for the liveness run
+          Lives,                    \* number of lives (pairing attempts) of the pair of devices explored (1 = a single pairing)
+          Provider                  \* how the MODEL's long-term-key provider picks its answer: "session" (pairing in progress
+                                    \* first, then the store) or "store" (store first: a deliberately wrong design, TLC must refute it)
 
 S == {"i", "r"}
 Other(s) == IF s = "i" THEN "r" ELSE "i"
@@ -81,27 +93,32 @@ VARIABLES
   chan,     \* side -> FIFO of messages travelling TO that side
   lk,       \* link layer: [req, rep] keys of the pending encryption start, enc: side -> BOOLEAN
   enc,
-  store,    \* side -> [has, authn, ltk, mine, peers]
-  rb        \* central side -> <<done, key central sends, key peripheral returns>>
+  store,    \* side -> [has, authn, ltk, mine, peers, gen, bond, sure]: keys of the latest completed pairing of the device
+            \*   now in role `side`; gen = life that wrote it, sure = FALSE when an unbonded pairing may or may not have
+            \*   replaced an older bond.  The ONLY state that survives NewLife
+  rb,       \* central side -> <<done, key central sends, key peripheral returns>>
+  life      \* number of the current life
 
 vars == <<cfg, ans, tamper, badround, ph, neg, meth, pk, rd, peercfm, cmp, cnf, mustfail, res, out, want,
-          myltk, peerltk, chan, lk, enc, store, rb>>
+          myltk, peerltk, chan, lk, enc, store, rb, life>>
 
 (* ---------------- symbolic crypto ---------------- *)
 Pv(s) == IF tamper /\ s = "r" THEN 1 ELSE 0              \* view of the pairing request / response
 Secret(s) == IF meth[s].m = "PK" THEN pk[s] ELSE 0       \* TK (legacy) / passkey bit source (SC)
 CfmValue(s) == IF neg[s].sc THEN <<Secret(s), 0>> ELSE <<Secret(s), Pv(s)>>   \* c1 covers preq/pres, f4 does not
 DhkValue(s) == <<Secret(s), Pv(s)>>                                                  \* f6 covers the IO capability bytes
-STK(s) == 10 + Secret(s) + 3 * Pv(s)
-SCLTK == 1
-LegacyLtk(s) == IF s = "i" THEN 2 ELSE 3
+\* every life generates fresh keys: identities of life n are 20 * (n - 1) + 1 .. 20 * n
+KOff == 20 * (life - 1)
+STK(s) == KOff + 10 + Secret(s) + 3 * Pv(s)
+SCLTK == KOff + 1
+LegacyLtk(s) == KOff + (IF s = "i" THEN 2 ELSE 3)
 
 KeyMsgs(kd, sc) ==
     (IF ~sc /\ "ENC" \in kd THEN <<"encinfo", "mid">> ELSE <<>>)
  \o (IF "ID" \in kd THEN <<"idinfo", "idaddr">> ELSE <<>>)
  \o (IF "SIGN" \in kd THEN <<"sign">> ELSE <<>>)
 
-NoStore == [has |-> FALSE, authn |-> FALSE, ltk |-> 0, mine |-> 0, peers |-> 0]
+NoStore == [has |-> FALSE, authn |-> FALSE, ltk |-> 0, mine |-> 0, peers |-> 0, gen |-> 0, bond |-> FALSE, sure |-> TRUE]
 Active(s) == res[s] = "none" /\ ~mustfail[s]
 Send(to, m) == chan' = [chan EXCEPT ![to] = Append(@, m)]
 Head1(s, t) == chan[s] # <<>> /\ Head(chan[s]).t = t
@@ -115,10 +132,16 @@ AnsFor(e, s) ==
    cmp    : IF Faults /\ e.m = "NC" THEN BOOLEAN ELSE {TRUE},
    cfm    : IF e.m = "JW" /\ Faults THEN {"na", "yes", "no"} ELSE {"na"}]
 
+\* initial values of the session variables (everything but the key stores and the life counter)
+Neg0(c) == [s \in S |-> [sc |-> c[s].sc, bond |-> c[s].bond, ikd |-> c[s].ikd, rkd |-> c[s].rkd]]
+Meth0 == [s \in S |-> [m |-> "none", role |-> "none"]]
+Lk0 == [req |-> 0, rep |-> 0, asked |-> FALSE, answered |-> FALSE]
+Rb0 == [s \in S |-> <<FALSE, 0, 0>>]
+
 InitRest ==
   /\ ph = [s \in S |-> "idle"]
-  /\ neg = [s \in S |-> [sc |-> cfg[s].sc, bond |-> cfg[s].bond, ikd |-> cfg[s].ikd, rkd |-> cfg[s].rkd]]
-  /\ meth = [s \in S |-> [m |-> "none", role |-> "none"]]
+  /\ neg = Neg0(cfg)
+  /\ meth = Meth0
   /\ pk = [s \in S |-> 0]
   /\ rd = [s \in S |-> 0]
   /\ peercfm = [s \in S |-> <<0, 0>>]
@@ -131,17 +154,22 @@ InitRest ==
   /\ myltk = [s \in S |-> 0]
   /\ peerltk = [s \in S |-> 0]
   /\ chan = [s \in S |-> <<>>]
-  /\ lk = [req |-> 0, rep |-> 0, asked |-> FALSE, answered |-> FALSE]
+  /\ lk = Lk0
   /\ enc = [s \in S |-> FALSE]
   /\ store = [s \in S |-> NoStore]
-  /\ rb = [s \in S |-> <<FALSE, 0, 0>>]
+  /\ rb = Rb0
+  /\ life = 1
+
+AnsSet(c) == [i : AnsFor(Method(c["i"], c["r"]), "i"), r : AnsFor(Method(c["i"], c["r"]), "r")]
+TamperSet == IF Faults THEN BOOLEAN ELSE {FALSE}
+BadRoundOk(a, br) == (\A s \in S : a[s].pkin # 2) => br = 1
 
 Init ==
   /\ cfg \in [i : CfgSet(IoI), r : CfgSet(IoR)]
-  /\ ans \in [i : AnsFor(Method(cfg["i"], cfg["r"]), "i"), r : AnsFor(Method(cfg["i"], cfg["r"]), "r")]
-  /\ tamper \in (IF Faults THEN BOOLEAN ELSE {FALSE})
+  /\ ans \in AnsSet(cfg)
+  /\ tamper \in TamperSet
   /\ badround \in 1..Rounds
-  /\ (\A s \in S : ans[s].pkin # 2) => badround = 1
+  /\ BadRoundOk(ans, badround)
   /\ InitRest
 
 (* ---------------- phase 1 ---------------- *)
@@ -149,7 +177,7 @@ Start ==
   /\ ph["i"] = "idle" /\ res["i"] = "none"
   /\ ph' = [ph EXCEPT !["i"] = "w_rsp"]
   /\ Send("r", [t |-> "req", c |-> cfg["i"]])
-  /\ UNCHANGED <<cfg, ans, tamper, badround, neg, meth, pk, rd, peercfm, cmp, cnf, mustfail, res, out, want, myltk, peerltk, lk, enc, store, rb>>
+  /\ UNCHANGED <<cfg, ans, tamper, badround, neg, meth, pk, rd, peercfm, cmp, cnf, mustfail, res, out, want, myltk, peerltk, lk, enc, store, rb, life>>
 
 \* what a side selects from its own configuration and the peer's PDU
 Select(s, ci, cr) == LET e == Method(ci, cr) IN [m |-> e.m, role |-> e[s]]
@@ -162,13 +190,13 @@ RxReq ==
      /\ meth' = [meth EXCEPT !["r"] = Select("r", c, cfg["r"])]
   /\ ph' = [ph EXCEPT !["r"] = "accept"]
   /\ Pop("r")
-  /\ UNCHANGED <<cfg, ans, tamper, badround, pk, rd, peercfm, cmp, cnf, mustfail, res, out, want, myltk, peerltk, lk, enc, store, rb>>
+  /\ UNCHANGED <<cfg, ans, tamper, badround, pk, rd, peercfm, cmp, cnf, mustfail, res, out, want, myltk, peerltk, lk, enc, store, rb, life>>
 
 Accept(b) ==
   /\ ph["r"] = "accept" /\ Active("r")
   /\ IF b THEN ph' = [ph EXCEPT !["r"] = "s_rsp"] /\ UNCHANGED mustfail
           ELSE mustfail' = [mustfail EXCEPT !["r"] = TRUE] /\ UNCHANGED ph
-  /\ UNCHANGED <<cfg, ans, tamper, badround, neg, meth, pk, rd, peercfm, cmp, cnf, res, out, want, myltk, peerltk, chan, lk, enc, store, rb>>
+  /\ UNCHANGED <<cfg, ans, tamper, badround, neg, meth, pk, rd, peercfm, cmp, cnf, res, out, want, myltk, peerltk, chan, lk, enc, store, rb, life>>
 
 \* after the response the responder waits for: legacy -> confirm; SC -> public key
 TxRsp(ik, rk) ==
@@ -178,7 +206,7 @@ TxRsp(ik, rk) ==
   /\ neg' = [neg EXCEPT !["r"].ikd = ik, !["r"].rkd = rk]
   /\ ph' = [ph EXCEPT !["r"] = IF neg["r"].sc THEN "w_pub" ELSE "w_cfm"]
   /\ Send("i", [t |-> "rsp", c |-> cfg["r"], ikd |-> ik, rkd |-> rk])
-  /\ UNCHANGED <<cfg, ans, tamper, badround, meth, pk, rd, peercfm, cmp, cnf, mustfail, res, out, want, myltk, peerltk, lk, enc, store, rb>>
+  /\ UNCHANGED <<cfg, ans, tamper, badround, meth, pk, rd, peercfm, cmp, cnf, mustfail, res, out, want, myltk, peerltk, lk, enc, store, rb, life>>
 
 RxRsp ==
   /\ ph["i"] = "w_rsp" /\ Active("i") /\ Head1("i", "rsp")
@@ -188,11 +216,11 @@ RxRsp ==
      /\ meth' = [meth EXCEPT !["i"] = Select("i", cfg["i"], m.c)]
      /\ ph' = [ph EXCEPT !["i"] = IF sc THEN "s_pub" ELSE "s_cfm"]
   /\ Pop("i")
-  /\ UNCHANGED <<cfg, ans, tamper, badround, pk, rd, peercfm, cmp, cnf, mustfail, res, out, want, myltk, peerltk, lk, enc, store, rb>>
+  /\ UNCHANGED <<cfg, ans, tamper, badround, pk, rd, peercfm, cmp, cnf, mustfail, res, out, want, myltk, peerltk, lk, enc, store, rb, life>>
 
 (* ---------------- user interface ---------------- *)
 Known(s) == meth[s].m # "none" /\ Active(s)
-UiFrame == UNCHANGED <<cfg, ans, tamper, badround, ph, neg, meth, rd, peercfm, res, out, want, myltk, peerltk, chan, lk, enc, store, rb>>
+UiFrame == UNCHANGED <<cfg, ans, tamper, badround, ph, neg, meth, rd, peercfm, res, out, want, myltk, peerltk, chan, lk, enc, store, rb, life>>
 
 AskDisplay(s) ==
   /\ Known(s) /\ meth[s].m = "PK" /\ meth[s].role = "display" /\ pk[s] = 0
@@ -223,7 +251,7 @@ AskConfirm(s, b) ==
   /\ UNCHANGED <<pk, cmp>> /\ UiFrame
 
 (* ---------------- phase 2 ---------------- *)
-P2Frame == UNCHANGED <<cfg, ans, tamper, badround, neg, meth, pk, cmp, cnf, res, out, want, myltk, peerltk, lk, enc, store, rb>>
+P2Frame == UNCHANGED <<cfg, ans, tamper, badround, neg, meth, pk, cmp, cnf, res, out, want, myltk, peerltk, lk, enc, store, rb, life>>
 
 AfterPub(s) ==   \* next phase once both public keys are exchanged
   CASE meth[s].m \in {"JW", "NC"} -> IF s = "i" THEN "w_cfm" ELSE "s_cfm"
@@ -311,18 +339,18 @@ TxFail(s) ==
   /\ res[s] = "none" /\ (mustfail[s] \/ MayRefuse(s))
   /\ res' = [res EXCEPT ![s] = "fail"]
   /\ Send(Other(s), [t |-> "fail"])
-  /\ UNCHANGED <<cfg, ans, tamper, badround, ph, neg, meth, pk, rd, peercfm, cmp, cnf, mustfail, out, want, myltk, peerltk, lk, enc, store, rb>>
+  /\ UNCHANGED <<cfg, ans, tamper, badround, ph, neg, meth, pk, rd, peercfm, cmp, cnf, mustfail, out, want, myltk, peerltk, lk, enc, store, rb, life>>
 
 RxFail(s) ==
   /\ res[s] = "none" /\ Head1(s, "fail")
   /\ res' = [res EXCEPT ![s] = "fail"]
   /\ Pop(s)
-  /\ UNCHANGED <<cfg, ans, tamper, badround, ph, neg, meth, pk, rd, peercfm, cmp, cnf, mustfail, out, want, myltk, peerltk, lk, enc, store, rb>>
+  /\ UNCHANGED <<cfg, ans, tamper, badround, ph, neg, meth, pk, rd, peercfm, cmp, cnf, mustfail, out, want, myltk, peerltk, lk, enc, store, rb, life>>
 
 RxStale(s) ==      \* whatever reaches a side that has already failed is dropped
   /\ res[s] = "fail" /\ chan[s] # <<>>
   /\ Pop(s)
-  /\ UNCHANGED <<cfg, ans, tamper, badround, ph, neg, meth, pk, rd, peercfm, cmp, cnf, mustfail, res, out, want, myltk, peerltk, lk, enc, store, rb>>
+  /\ UNCHANGED <<cfg, ans, tamper, badround, ph, neg, meth, pk, rd, peercfm, cmp, cnf, mustfail, res, out, want, myltk, peerltk, lk, enc, store, rb, life>>
 
 \* A side whose pairing has failed may still emit a PDU that was already on its way out (a prompt
 \* answered late, a task that was waiting).  Its peer has failed as well by then (it either sent the
@@ -331,10 +359,10 @@ TxStray(s, t) ==
   /\ res[s] = "fail"
   /\ \A j \in DOMAIN chan[Other(s)] : chan[Other(s)][j].t # "stray"
   /\ Send(Other(s), [t |-> "stray", was |-> t])
-  /\ UNCHANGED <<cfg, ans, tamper, badround, ph, neg, meth, pk, rd, peercfm, cmp, cnf, mustfail, res, out, want, myltk, peerltk, lk, enc, store, rb>>
+  /\ UNCHANGED <<cfg, ans, tamper, badround, ph, neg, meth, pk, rd, peercfm, cmp, cnf, mustfail, res, out, want, myltk, peerltk, lk, enc, store, rb, life>>
 
 (* ---------------- encryption start (link layer asks the responder's host for the key) ---------------- *)
-LkFrame == UNCHANGED <<cfg, ans, tamper, badround, neg, meth, pk, rd, peercfm, cmp, cnf, mustfail, res, myltk, peerltk, chan, store, rb>>
+LkFrame == UNCHANGED <<cfg, ans, tamper, badround, neg, meth, pk, rd, peercfm, cmp, cnf, mustfail, res, myltk, peerltk, chan, store, rb, life>>
 PairingKey(s) == IF neg[s].sc THEN SCLTK ELSE STK(s)
 
 EncReq(k) ==
@@ -365,21 +393,24 @@ TxKey(s, k) ==
   /\ out' = [out EXCEPT ![s] = Tail(@)]
   /\ IF Head(out[s]) = "encinfo" THEN k # 0 /\ myltk' = [myltk EXCEPT ![s] = k] ELSE UNCHANGED myltk
   /\ Send(Other(s), [t |-> Head(out[s]), k |-> IF Head(out[s]) = "encinfo" THEN k ELSE 0])
-  /\ UNCHANGED <<cfg, ans, tamper, badround, ph, neg, meth, pk, rd, peercfm, cmp, cnf, mustfail, res, want, peerltk, lk, enc, store, rb>>
+  /\ UNCHANGED <<cfg, ans, tamper, badround, ph, neg, meth, pk, rd, peercfm, cmp, cnf, mustfail, res, want, peerltk, lk, enc, store, rb, life>>
 
 RxKey(s) ==
   /\ ph[s] = "keys" /\ Active(s) /\ want[s] # <<>> /\ Head1(s, Head(want[s]))
   /\ want' = [want EXCEPT ![s] = Tail(@)]
   /\ IF Head(want[s]) = "encinfo" THEN peerltk' = [peerltk EXCEPT ![s] = Head(chan[s]).k] ELSE UNCHANGED peerltk
   /\ Pop(s)
-  /\ UNCHANGED <<cfg, ans, tamper, badround, ph, neg, meth, pk, rd, peercfm, cmp, cnf, mustfail, res, out, myltk, lk, enc, store, rb>>
+  /\ UNCHANGED <<cfg, ans, tamper, badround, ph, neg, meth, pk, rd, peercfm, cmp, cnf, mustfail, res, out, myltk, lk, enc, store, rb, life>>
 
 Complete(s, authn) ==
   /\ ph[s] = "keys" /\ Active(s) /\ out[s] = <<>> /\ want[s] = <<>>
   /\ res' = [res EXCEPT ![s] = "ok"]
   /\ store' = [store EXCEPT ![s] = [has |-> TRUE, authn |-> authn,
-                                     ltk |-> IF neg[s].sc THEN lk.req ELSE 0, mine |-> myltk[s], peers |-> peerltk[s]]]
-  /\ UNCHANGED <<cfg, ans, tamper, badround, ph, neg, meth, pk, rd, peercfm, cmp, cnf, mustfail, out, want, myltk, peerltk, chan, lk, enc, rb>>
+                                     ltk |-> IF neg[s].sc THEN lk.req ELSE 0, mine |-> myltk[s], peers |-> peerltk[s],
+                                     gen |-> life, bond |-> neg[s].bond,
+                                     \* whether an UNBONDED pairing replaces an older bond is left to the implementation
+                                     sure |-> neg[s].bond \/ ~store[s].has]]
+  /\ UNCHANGED <<cfg, ans, tamper, badround, ph, neg, meth, pk, rd, peercfm, cmp, cnf, mustfail, out, want, myltk, peerltk, chan, lk, enc, rb, life>>
 
 (* ---------------- later connection, c is the central ---------------- *)
 CentralKey(st) == IF st.ltk # 0 THEN st.ltk ELSE st.peers    \* the key the peer distributed
@@ -389,7 +420,42 @@ Rebond(c, ck, pkk) ==
   /\ \A s \in S : res[s] = "ok"
   /\ ~rb[c][1]
   /\ rb' = [rb EXCEPT ![c] = <<TRUE, ck, pkk>>]
-  /\ UNCHANGED <<cfg, ans, tamper, badround, ph, neg, meth, pk, rd, peercfm, cmp, cnf, mustfail, res, out, want, myltk, peerltk, chan, lk, enc, store>>
+  /\ UNCHANGED <<cfg, ans, tamper, badround, ph, neg, meth, pk, rd, peercfm, cmp, cnf, mustfail, res, out, want, myltk, peerltk, chan, lk, enc, store, life>>
+
+(* ---------------- histories: the bond is deleted on one device; the next life begins ---------------- *)
+LifeOver == \A s \in S : res[s] # "none" /\ chan[s] = <<>>
+
+\* the user removes the bond on the device that is in role s (environment action)
+Forget(s) ==
+  /\ LifeOver
+  /\ store' = [store EXCEPT ![s] = NoStore]
+  /\ UNCHANGED <<cfg, ans, tamper, badround, ph, neg, meth, pk, rd, peercfm, cmp, cnf, mustfail, res, out, want, myltk, peerltk, chan, lk, enc, rb, life>>
+
+\* a new connection (sw: the device that was the responder is now the central / initiator) and a new pairing
+\* attempt with configuration c, user scripts a: only the key stores survive
+NewLife(sw, c, a, tm, br) ==
+  /\ LifeOver
+  /\ life' = life + 1
+  /\ cfg' = c /\ ans' = a /\ tamper' = tm /\ badround' = br
+  /\ store' = [s \in S |-> store[IF sw THEN Other(s) ELSE s]]
+  /\ ph' = [s \in S |-> "idle"]
+  /\ neg' = Neg0(c)
+  /\ meth' = Meth0
+  /\ pk' = [s \in S |-> 0]
+  /\ rd' = [s \in S |-> 0]
+  /\ peercfm' = [s \in S |-> <<0, 0>>]
+  /\ cmp' = [s \in S |-> "none"]
+  /\ cnf' = [s \in S |-> "none"]
+  /\ mustfail' = [s \in S |-> FALSE]
+  /\ res' = [s \in S |-> "none"]
+  /\ out' = [s \in S |-> <<>>]
+  /\ want' = [s \in S |-> <<>>]
+  /\ myltk' = [s \in S |-> 0]
+  /\ peerltk' = [s \in S |-> 0]
+  /\ chan' = [s \in S |-> <<>>]
+  /\ lk' = Lk0
+  /\ enc' = [s \in S |-> FALSE]
+  /\ rb' = Rb0
 
 Terminal == /\ \A s \in S : res[s] # "none" /\ chan[s] = <<>>
             /\ (\A s \in S : res[s] = "ok") => \A s \in S : rb[s][1]
@@ -397,6 +463,20 @@ Finished == Terminal /\ UNCHANGED vars
 
 Consent(s) == ans[s].cfm # "na" /\ AskConfirm(s, ans[s].cfm = "yes")
 Stray(s) == Strays /\ TxStray(s, "cfm")
+
+\* What the MODEL's peripheral host answers to the link layer's long-term-key request.  "session": the key of
+\* the pairing in progress on this connection, otherwise the key in the store.  "store" looks in the store first
+\* (right for every first pairing and every reconnection, wrong for a pairing over an earlier bond).
+ProviderKey ==
+  IF Provider = "store" /\ PeriphKey(store["r"]) # 0 THEN PeriphKey(store["r"])
+  ELSE IF ph["r"] = "w_enc" \/ Provider = "store" THEN PairingKey("r")
+  ELSE PeriphKey(store["r"])
+
+Forgets(s) == Lives > 1 /\ store[s].has /\ Forget(s)
+Relive ==
+  /\ life < Lives
+  /\ \E sw \in BOOLEAN, c \in [i : CfgSet(IoI), r : CfgSet(IoR)], tm \in TamperSet, br \in 1..Rounds :
+       \E a \in AnsSet(c) : BadRoundOk(a, br) /\ NewLife(sw, c, a, tm, br)
 
 Next ==
   \/ Start \/ RxReq \/ Accept(ans["r"].accept) \/ RxRsp
@@ -410,7 +490,9 @@ Next ==
        \/ EncOn(s) \/ TxKey(s, LegacyLtk(s)) \/ RxKey(s)
        \/ Complete(s, MitmProtected(meth[s].m))
        \/ Rebond(s, CentralKey(store[s]), PeriphKey(store[Other(s)]))
-  \/ EncReq(PairingKey("i")) \/ LtkReply(PairingKey("r"))
+       \/ Forgets(s)
+  \/ EncReq(PairingKey("i")) \/ LtkReply(ProviderKey)
+  \/ Relive
   \/ Finished
 
 Spec == Init /\ [][Next]_vars /\ WF_vars(Next)
@@ -428,9 +510,11 @@ Agreement ==
   /\ \A s \in S : res[s] = "ok" => enc[s] /\ lk.req = lk.rep /\ lk.req # 0
   /\ (\A s \in S : res[s] = "ok") =>
         /\ neg["i"].sc = neg["r"].sc
-        /\ store["i"].ltk = store["r"].ltk
-        /\ store["i"].peers = store["r"].mine /\ store["r"].peers = store["i"].mine
-  /\ lk.answered => lk.rep = lk.req     \* the key the responder's host supplies is the key the initiator started encryption with
+        \* (session variables, not the stores: the user may delete a bond right after the pairing)
+        /\ peerltk["i"] = myltk["r"] /\ peerltk["r"] = myltk["i"]
+  \* EVERY encryption start of EVERY life: the key the responder's host supplies (whatever else it holds: keys of an
+  \* earlier bond, a finished session) is the key the initiator started encryption with
+  /\ lk.answered => lk.rep = lk.req
 
 \* late PDUs of a failed side never reach a live session
 StraysHarmless == \A s \in S : (chan[s] # <<>> /\ Head(chan[s]).t = "stray") => res[s] = "fail" \/ (\E j \in DOMAIN chan[s] : chan[s][j].t = "fail")
@@ -443,7 +527,8 @@ Model ==
 ModelRoles == E.m = "PK" => ~(E.i = "display" /\ E.r = "display")
 
 \* stored keys are flagged authenticated only if a MITM-protected model was used
-Honest == \A s \in S : store[s].has /\ store[s].authn => MitmProtected(E.m)
+Fresh(s) == store[s].has /\ store[s].gen = life          \* the entry was written by the pairing of this life
+Honest == \A s \in S : Fresh(s) /\ store[s].authn => MitmProtected(E.m)
 
 \* a refusal, a wrong / missing passkey, a "no" or a tampered exchange never completes
 BadInput == \/ ~ans["r"].accept \/ tamper
@@ -452,14 +537,18 @@ BadInput == \/ ~ans["r"].accept \/ tamper
             \/ \E s \in S : (E.m = "PK" /\ E[s] = "input" /\ E[Other(s)] = "display" /\ ans[s].pkin = 2)
             \/ \E s \in S : E.m = "NC" /\ ~ans[s].cmp
 NoKeysOnFailure ==
-  /\ \A s \in S : res[s] = "fail" => ~store[s].has
-  /\ BadInput => \A s \in S : res[s] # "ok" /\ ~store[s].has
+  /\ \A s \in S : res[s] = "fail" => ~Fresh(s)
+  /\ BadInput => \A s \in S : res[s] # "ok" /\ ~Fresh(s)
 
 \* on a later connection, in either role assignment, the central's key is the peripheral's
+\* (both stores must hold the same bond: nothing is demanded after the user deleted it on one device, or while it is
+\* unknown whether an unbonded pairing replaced an older bond)
+Synced == /\ \A s \in S : store[s].has /\ store[s].sure
+          /\ store["i"].gen = store["r"].gen
 RebondOk ==
-  \A c \in S : rb[c][1] =>
+  \A c \in S : (rb[c][1] /\ Synced) =>
      /\ rb[c][2] # 0 => rb[c][2] = rb[c][3]
-     /\ (neg[c].bond /\ CentralKey(store[c]) # 0) => rb[c][2] # 0
+     /\ (store[c].bond /\ CentralKey(store[c]) # 0) => rb[c][2] # 0
 
 \* cooperative users and an untampered link complete
 Succeeds == (Decided /\ ~BadInput /\ ~(\E s \in S : cfg[s].mitm /\ E.m = "JW") /\ \A s \in S : ans[s].cfm # "no")
